@@ -1440,8 +1440,7 @@ func exec(c px.Context, op string, args []sx.Sexp) core.Result {
 			cls = "too-narrow-format-ignored"
 		}
 		if flagsIgnored(tag, d.letter) {
-			// SemVer / URI %p, SemVerRange, Timespan, Timestamp, Sensitive: the code never consults width, precision or `-`
-			// (known finding C20-width-ignored)
+			// Timespan, Timestamp, Sensitive: the code never consults width, precision or `-` (known finding C20-width-ignored)
 			cls = "width-ignored"
 		}
 		return fail(cls, fmt.Sprintf("%s: %d runes, width %d requested: %q", d.raw, utf8.RuneCountInString(text), d.width, text))
@@ -1462,9 +1461,9 @@ func exec(c px.Context, op string, args []sx.Sexp) core.Result {
 // flagsIgnored: the arm of the kind's ToString that formats this letter never calls ApplyStringFlags
 func flagsIgnored(tag string, letter byte) bool {
 	switch tag {
-	case "v", "y":
-		return letter == 'p'
-	case "w", "n", "m", "z":
+	case "n", "m", "z":
+		// Timespan, Timestamp, Sensitive: the ToString never looks at the format (SemVer / URI %p and SemVerRange did the same
+		// before fix 5c2f826: there a narrow rendering is class too-narrow now)
 		return true
 	}
 	return false
@@ -1862,8 +1861,18 @@ type spanSeg struct {
 	useTotal bool
 }
 
-// an independent reading of the format language: %[-_0][width]{D,H,M,S,L,N} and %%; ok = false: not a format
+// widths above this are not part of the format language (fmt does not accept them; fix 5257aa1)
+const spanMaxWidth = 1000000
+
+// an independent reading of the format language: %[-_0][width]{D,H,M,S,L,N} and %%; ok = false: not a format (a width above
+// spanMaxWidth makes it one; such segments are still returned so that the defect class of the tree before the fix can be named)
 func parseSpanFormat(f string) ([]spanSeg, bool) {
+	segs, ok, over := parseSpanFormat2(f)
+	return segs, ok && !over
+}
+
+func parseSpanFormat2(f string) ([]spanSeg, bool, bool) {
+	over := false
 	var segs []spanSeg
 	rs := []rune(f)
 	highest := -1
@@ -1885,7 +1894,7 @@ func parseSpanFormat(f string) ([]spanSeg, bool) {
 		first := true
 		for ; ; i++ {
 			if i >= len(rs) {
-				return nil, false
+				return nil, false, over
 			}
 			c := rs[i]
 			switch {
@@ -1907,7 +1916,12 @@ func parseSpanFormat(f string) ([]spanSeg, bool) {
 				if seg.width < 0 {
 					seg.width = 0
 				}
-				seg.width = seg.width*10 + int(c-'0')
+				if seg.width <= spanMaxWidth {
+					seg.width = seg.width*10 + int(c-'0')
+				}
+				if seg.width > spanMaxWidth {
+					over = true
+				}
 				first = false
 				continue
 			case strings.ContainsRune("DHMSLN", c):
@@ -1917,7 +1931,7 @@ func parseSpanFormat(f string) ([]spanSeg, bool) {
 				}
 				segs = append(segs, seg)
 			default:
-				return nil, false
+				return nil, false, over
 			}
 			break
 		}
@@ -1927,7 +1941,7 @@ func parseSpanFormat(f string) ([]spanSeg, bool) {
 			segs[i].useTotal = true
 		}
 	}
-	return segs, true
+	return segs, true, over
 }
 
 // span xFORMAT NS: Timespan(NS).Format(FORMAT).  Direct predicates on the implementation: total (text or the reported bad-format
@@ -1936,7 +1950,8 @@ func parseSpanFormat(f string) ([]spanSeg, bool) {
 // full format %D-%H:%M:%S.%N add up to the value
 func execSpan(format string, ns int64) core.Result {
 	out := deadline(func() string { return textOut(types.WrapTimespan(time.Duration(ns)).Format(format)) })
-	segs, valid := parseSpanFormat(format)
+	segs, wellFormed, over := parseSpanFormat2(format)
+	valid := wellFormed && !over
 	tags := []string{"op:span", "out:" + strings.SplitN(out, " ", 2)[0]}
 	res := func(pred string) core.Result {
 		return core.Result{Out: out, Pred: pred, NonTrivial: strings.Count(format, "%") > 1 || len(format) > 2, Tags: tags}
@@ -1952,8 +1967,8 @@ func execSpan(format string, ns int64) core.Result {
 	if out == "fault" {
 		for _, sg := range segs {
 			if valid && sg.kind == 'N' && sg.width == 0 && !sg.useTotal {
-				// utils.Int64Pow(10, 0) is 0: the remainder of a nanosecond segment of width 0 divides by zero
-				// (known finding C20-span-nano-width-zero)
+				// utils.Int64Pow(10, 0) was 0: the remainder of a nanosecond segment of width 0 divided by zero
+				// (fixed finding C20-span-nano-width-zero, 03fcfad)
 				return fail("span-nano-width-zero", fmt.Sprintf("%q of %d: runtime error (integer divide by zero)", format, ns))
 			}
 		}
@@ -1961,12 +1976,10 @@ func execSpan(format string, ns int64) core.Result {
 	}
 	text, isT := isText(out)
 	if isT && (strings.Contains(text, "%!(NOVERB)") || strings.Contains(text, "%!(BADWIDTH)")) {
-		// the width of a segment is beyond what fmt accepts: the model's fault goFmtNoVerb (known finding C20-span-width-limit)
+		// the width of a segment is beyond what fmt accepts and reached it (fixed finding C20-span-width-limit, 5257aa1)
 		out = "fault"
-		for _, sg := range segs {
-			if valid && sg.width > 1000000 {
-				return fail("span-width-limit", fmt.Sprintf("%q: a Go fmt error marker in the output: %.60q", format, text))
-			}
+		if wellFormed && over {
+			return fail("span-width-limit", fmt.Sprintf("%q: a Go fmt error marker in the output: %.60q", format, text))
 		}
 		return fail("go-fmt-leak", fmt.Sprintf("%q: a Go fmt error marker in the output: %.60q", format, text))
 	}
